@@ -654,6 +654,32 @@ def _total_validators(chk, repo, cv):
     chk.ob("SIB-6", "validate_config replaces the section by an empty one exactly when it is absent (None); every other non-mapping is rejected", ok,
            vc.where(repl[0].ast if repl else None), detail="replaced under %s" % [sorted(g) for g in gsets], construct=vc.ident,
            text="absent section default")
+    # `str` settings turn a scalar into text; a container given for one is a mistake of structure (wrong indentation) and is refused, mappings
+    # as well as lists: str(item) of either would "validate" to its repr
+    vs = cv.methods["_validate_type_str"]
+    chk.analysed(vs)
+    scfg = vs.cfg()
+    rej = set()
+    for n in scfg.nodes:
+        if n.kind == "stmt" and isinstance(n.ast, ast.Raise):
+            for k, v in scfg.guards_at(n.id).items():
+                if v is True and k.replace(" ", "").startswith("isinstance(item,"):
+                    t = ast.parse(k, mode="eval").body.args[1]
+                    rej |= {src(e) for e in (t.elts if isinstance(t, ast.Tuple) else [t])}
+    chk.ob("SIB-6", "the str validator refuses both kinds of container, list and dict, before it stringifies", {"list", "dict"} <= rej, vs.where(),
+           detail="refuses %s" % sorted(rej), construct=vs.ident, text="containers refused by str")
+    # YAML turns a bare yes / no into a boolean: the enum validator maps it back only for an enum that lists that word, and only that boolean
+    ve = cv.methods["_validate_type_enum"]
+    chk.analysed(ve)
+    ecfg = ve.cfg()
+    from sa.cfg import canon_fact as _cfe, canon_set as _cse
+    for word, const in (("yes", "True"), ("no", "False")):
+        rets = [n for n in ecfg.nodes if n.kind == "stmt" and isinstance(n.ast, ast.Return) and const_value(n.ast.value) == word]
+        want = {_cfe("item is %s" % const, True), _cfe("'%s' in enum_values" % word, True)}
+        ok = len(rets) == 1 and want <= set(_cse(ecfg.guards_at(rets[0].id)))
+        chk.ob("SIB-6", "the enum validator answers '%s' only for the boolean %s and only when the enum lists '%s'" % (word, const, word), ok,
+               ve.where(rets[0].ast if rets else None), detail="under %s" % (sorted(ecfg.guards_at(rets[0].id).items()) if rets else "?"), construct=ve.ident,
+               text="enum boolean fallback " + word)
 
 
 def _pass_through_and_patterns(chk, repo, cv):
@@ -962,6 +988,8 @@ def battery():
         M("twin: suffix order MSEC first", UF, "        if time_string.endswith('MS'):\n            return int(time_string[:-2])\n\n        if time_string.endswith('MSEC'):\n            return int(time_string[:-4])\n", "        if time_string.endswith('MSEC'):\n            return int(time_string[:-4])\n\n        if time_string.endswith('MS'):\n            return int(time_string[:-2])\n", None),
         M("twin: new spec entry", Y, "    level_x: single|int|0", "    level_x: single|int|0\n    level_w: single|float(0,1)|0.5", None),
         M("unconvertible bool accepted as None", CV, "        raise self.validation_error(item, validation_failure_info, \"Cannot convert value to boolean.\", 13)\n", "", "TOTAL-12"),
+        M("str validator stringifies mappings", CV, "        if isinstance(item, (list, dict)):\n            raise self.validation_error(item, validation_failure_info, \"List or dict are not string\")", "        if isinstance(item, (list, tuple, set)):\n            raise self.validation_error(item, validation_failure_info, \"List or dict are not string\")", "SIB-6"),
+        M("enum answers yes for any true", CV, "        if item is True and 'yes' in enum_values:", "        if item is True or 'yes' in enum_values:", "SIB-6"),
         M("numeric template guard admits floats", CV, "        if not isinstance(item, (str, int)):\n            raise self.validation_error(item, validation_failure_info, \"Template has to be string/int.\")", "        if not isinstance(item, (str, int, float)):\n            raise self.validation_error(item, validation_failure_info, \"Template has to be string/int.\")", "SIB-6"),
         M("twin: absent-section test inverted", CV, "        if source is None:\n            source = dict()\n\n        validation_failure_info = ValidationPath(parent=None,", "        if source is not None:\n            pass\n        else:\n            source = dict()\n\n        validation_failure_info = ValidationPath(parent=None,", None),
         M("empty-string section treated as absent", CV, "        if source is None:\n            source = dict()\n\n        validation_failure_info = ValidationPath(parent=None,", "        if source is None or source == '':\n            source = dict()\n\n        validation_failure_info = ValidationPath(parent=None,", "SIB-6"),
